@@ -21,10 +21,14 @@
    and CometBFT v0.37.2 types/validator_set.go updateWithChangeSet (as [apply_updates]).
 
    Keys: validator addresses and consensus keys are small integers chosen by the harness so that
-   integer order = byte order of the addresses (store iteration order). Times are unix seconds.
+   integer order = byte order of the addresses (store iteration order). Times are unix NANOSECONDS
+   (time.Time); the durations among the settings are whole seconds, as in the network properties.
    A message that returns an error leaves the state unchanged (baseapp runs each transaction on a
    cache that is dropped on error). *)
 From Sekai Require Import Base.Prelude Base.Dec.
+
+(* time.Second *)
+Definition NS : Z := 1000000000.
 
 Inductive status := SActive | SInactive | SPaused | SJailed.
 Definition status_eqb (a b : status) : bool :=
@@ -162,7 +166,7 @@ Inductive op :=
 | OUnjail (v : Z)                         (* passed unjail proposal: handler Apply *)
 | OReset                                  (* passed rank-reset proposal: handler Apply *)
 | OUpPause (vs : list Z)                  (* upgrade plan: PauseProposalNotApprovedValidators, vs = non-approving voters *)
-| ONewBlock (dt : Z)                      (* next block: height + 1, time + dt *)
+| ONewBlock (dt : Z)                      (* next block: height + 1, time + dt nanoseconds *)
 | OEndBlock                               (* staking EndBlocker *)
 | ORotate (v v' : Z)                      (* recovery MsgRotateRecoveryAddress (accepted): validator record moves to address v' *)
 | OGenesis (over : list (Z * sinfo))      (* staking + slashing ExportGenesis, then InitGenesis into an empty store (InitChain);
@@ -196,7 +200,7 @@ Definition vote1 (cfg : config) (s : state) (x : Z * bool) : option state :=
       let s1 := sk_signature cfg s v missed (si_misch i1) in
       if c_maxm cfg <? si_misch i1 then
         let s2 := sk_inactivate cfg s1 v in
-        Some (set_si s2 (upd k (mkSI (si_start i1) (st_time s + c_downtime cfg) (si_conf i1) (si_misch i1) (si_last i1) (si_missed i1) (si_produced i1)) (st_si s2)))
+        Some (set_si s2 (upd k (mkSI (si_start i1) (st_time s + c_downtime cfg * NS) (si_conf i1) (si_misch i1) (si_last i1) (si_missed i1) (si_produced i1)) (st_si s2)))
       else Some (set_si s1 (upd k i1 (st_si s1)))
     end
   end.
@@ -205,7 +209,7 @@ Fixpoint votes (cfg : config) (s : state) (vs : list (Z * bool)) : option state 
 
 (* --- evidence HandleEquivocationEvidence for one piece of evidence; None = panic *)
 Definition evid_too_old (cfg : config) (s : state) (ih it : Z) : bool :=
-  (c_ev_age_dur cfg <? st_time s - it) && (c_ev_age_blocks cfg <? st_height s - ih).
+  (c_ev_age_dur cfg * NS <? st_time s - it) && (c_ev_age_blocks cfg <? st_height s - ih).
 Definition evid1 (cfg : config) (s : state) (e : Z * Z * Z) : option state :=
   let '(k, ih, it) := e in
   if negb (smem k (st_pk s)) then Some s else
@@ -343,7 +347,7 @@ Definition step (cfg : config) (s : state) (o : op) : state * res :=
           if negb (status_eqb (v_status r) SJailed) then (s, RRej) else
           match lookup v (st_jail s) with
           | None => (s, RRej)
-          | Some jt => if jt + c_unjail_max cfg <? st_time s then (s, RRej)
+          | Some jt => if jt + c_unjail_max cfg * NS <? st_time s then (s, RRej)
                        else (set_jail (add_validator s v (with_status r SInactive)) (del v (st_jail s)), ROk)
           end
       end
